@@ -57,6 +57,29 @@ def run(prog, ctx):
         ctx.ok("P1", "extended value: values", gs[0].where, "split from the value of the entry found by find_key (index %s)" % idx)
     else:
         ctx.fail("P1", "extended value: values", g.where, "value source %s" % [render(c) for c in gs], key="map:values")
+    # the "one quoted item" test looks at the TRIMMED value
+    from sa.dataflow import ReachingDefs as _RD
+    grd = _RD(g)
+    gcf = g.cfg
+    qt = []
+    for (b, i, s2) in gcf.edges():
+        lit = gcf.edge_lit(b, i)
+        if lit is not None and lit.kind == "eq" and lit.pol and ord('"') in (lit.lhs.const_value(), lit.rhs.const_value()):
+            for side in (lit.lhs, lit.rhs):
+                ss = side.strip()
+                if ss.k == "ArraySubscriptExpr" and ss.children[0].strip().k == "DeclRefExpr":
+                    qt.append((ss.children[0].strip(), gcf.blocks[b].cond))
+    if not qt:
+        ctx.fail("P1", "extended value: a value starting with a quote is one item", g.where, "no test for an opening quote", key="quote-test-missing")
+    for var, cond in qt:
+        ds = grd.reaching(var.j["name"], cond)
+        trimmed = ds and all(d.rhs is not None and d.rhs.strip().k == "CallExpr" and d.rhs.strip().j.get("callee") == "trim" for d in ds)
+        if trimmed:
+            ctx.ok("P1", "extended value: the quote test looks at the trimmed value", cond.where, "%s = trim(...) reaches the test" % var.j["name"])
+        else:
+            ctx.fail("P1", "extended value: the quote test looks at the trimmed value", cond.where,
+                     "`%s[0] == '\"'` tests text that was not blank-trimmed: a quoted value that starts on a continuation line (leading newline/blanks) "
+                     "is split into several items" % var.j["name"], key="quote-test-untrimmed")
     # the helper getters read the homonymous fields
     for helper, pairs in (("getCommentsNum", [("*comment_before_key", "comment_before_key"), ("*comment_after_value", "comment_after_value")]),
                           ("getLineNrNum", [("*line_nr", "line_number")]), ("getPath", [("*path", "path")])):
@@ -124,6 +147,20 @@ def run(prog, ctx):
     else:
         ctx.fail("P3", "a relative name is resolved with realpath()", gap.where, "no realpath(path) call: relative names stay relative in econf_getPath / extended values",
                  key="realpath-missing")
+    if len(rp) == 1:
+        bufarg = render(rp[0].call_args()[1])
+        good = set(gcfg.block_of(c) for c in gap.calls(("strdup", "strndup")) if c.call_args() and render(c.call_args()[0]) == bufarg)
+        rets_nonnull = [r2 for r2 in gap.returns() if r2.children and not r2.children[0].is_null_const()]
+        leaks = [r2 for r2 in rets_nonnull if gcfg.block_of(r2) in gcfg.reachable(gcfg.block_of(rp[0]), avoid_blocks=good) and gcfg.block_of(r2) not in good]
+        # the failing branch of realpath returns NULL: exclude paths through the `!realpath` edge
+        fail_edges = [(b, i) for (b, i, s2) in gcfg.edges() if gcfg.edge_lit(b, i) is not None and "realpath" in gcfg.edge_lit(b, i).atom and not gcfg.edge_lit(b, i).pol]
+        leaks = [r2 for r2 in rets_nonnull if gcfg.block_of(r2) in gcfg.reachable(gcfg.block_of(rp[0]), avoid_blocks=good, avoid_edges=fail_edges) and gcfg.block_of(r2) not in good]
+        if good and not leaks:
+            ctx.ok("P3", "the resolved name is what is returned", rp[0].where, "after realpath() succeeded every return passes strdup(%s)" % bufarg)
+        else:
+            ctx.fail("P3", "the resolved name is what is returned", rp[0].where,
+                     "realpath() is called but its result buffer `%s` is not what is copied: relative names are stored as given (econf_getPath / "
+                     "the extended value's file are not absolute)" % bufarg, key="realpath-result-unused")
     # (that the gate parses get_absolute_path(file_name) and read_file stores it as path is C06.G2 / C12.F7)
     # ---- P4 ------------------------------------------------------------------------------------------------------------
     L = parser.landmarks(prog)
@@ -178,6 +215,22 @@ def run(prog, ctx):
                 ctx.fail("P5", inst, c.where,
                          "after this store() the next iteration can start with `%s` still set: the same comment is attached to the following entry as well" % buf,
                          key="pending:%s:%d" % (buf, L.store_calls.index(c)))
+    # ---- P7: a pending comment is dropped only after it was attached (or when the read ends) ---------------------------------
+    for buf in (L.pending_before, L.pending_after):
+        drops = [x for x in rf.calls("free") if x.call_args() and render(x.call_args()[0]) == buf and x.within(L.loop)]
+        drops += [s2 for lhs, rhs, s2, kind in query.stores(rf) if render(lhs) == buf and rhs is not None and rhs.is_null_const() and s2.within(L.loop)]
+        stray = []
+        for x in drops:
+            if not any(cfg.node_dominates(c, x) and cfg.block_of(x) in cfg.reachable(cfg.block_of(c), avoid_blocks=[L.header]) for c in L.store_calls):
+                # tolerated: error paths that leave the function
+                if L.header in cfg.reachable(cfg.block_of(x)):
+                    stray.append(x)
+        if stray:
+            ctx.fail("P7", "a pending comment (%s) survives until the next entry" % buf, stray[0].where,
+                     "`%s` is released/cleared in the line loop before any entry was stored (e.g. on an empty line or a section header): "
+                     "the comment block no longer reaches the entry it precedes" % buf, key="pending-dropped:%s" % buf)
+        else:
+            ctx.ok("P7", "a pending comment (%s) survives until the next entry" % buf, rf.where, "released in the loop only after a store() call (%d sites)" % len(drops))
     # ---- P6 ----------------------------------------------------------------------------------------------------------------------
     from rules.C05 import _pending_defs
     befores = _pending_defs(L, L.pending_before)
